@@ -204,7 +204,7 @@ class SHAPE:
     """index = ((body index) * n_helpers + helper) * n_spellings + spelling"""
     SPELL = (('a', ''), ('_a', ''), ('a', '?'), ('a', '!'), ('t', 'T'), ('_t', 'T'))    # 'T' = template t{p} used as t{X}
 
-    def __init__(self, n, spellings=None, ignore=(), extra_terms=(), zlit='z', terms=None):
+    def __init__(self, n, spellings=None, ignore=(), extra_terms=(), zlit='z', terms=None, extra_helpers=None):
         """zlit: the anonymous string literal of the menu; 'x' makes it coincide with the named terminal X (one
         terminal used by name -- kept -- and as a literal -- filtered)."""
         self.SZ = ('lit', zlit)
@@ -214,10 +214,17 @@ class SHAPE:
         self.bodies = []
         for k in range(1, n + 1):
             self.bodies.extend(itertools.product(range(nm), repeat=k))
-        self.nh = len(shape_helpers(('ref', 'a')))
+        self.extra_helpers = extra_helpers
+        self.nh = len(self._helpers(('ref', 'a')))
         self.size = len(self.bodies) * self.nh * len(self.spell)
         self.ignore, self.extra_terms = tuple(ignore), tuple(extra_terms)
         self.terms = tuple(terms) if terms else SHAPE_TERMS
+
+    def _helpers(self, self_ref):
+        hs = shape_helpers(self_ref, self.SZ)
+        if self.extra_helpers:
+            hs = hs + self.extra_helpers(self_ref, self.SZ)
+        return hs
 
     def __len__(self):
         return self.size
@@ -239,7 +246,7 @@ class SHAPE:
                 return None
             rules = [Rule('start', '', None, ((body, None),))]
             return Grammar(rules, self.terms + self.extra_terms, self.ignore)
-        alts = shape_helpers(self_ref, self.SZ)[h]
+        alts = self._helpers(self_ref)[h]
         if name.startswith('_'):
             if any(al for _, al in alts):
                 return None         # aliases are not allowed on inlined rules
